@@ -29,14 +29,14 @@ def feeFieldsOf : Fns.KernelFeatures → Option Nat
 def feeFields (ks : List Fns.TxKernel) : List Nat := ks.filterMap (fun k => feeFieldsOf k.features)
 
 /-- any closure that agrees with `feeFieldsOf` pointwise (the generated `match` does) -/
-private theorem filterMap_closure (ks : List Fns.TxKernel) (f : Fns.TxKernel → Option Nat)
+theorem filterMap_closure (ks : List Fns.TxKernel) (f : Fns.TxKernel → Option Nat)
     (hf : ∀ k, f k = feeFieldsOf k.features) : List.filterMap f ks = feeFields ks := by
   unfold feeFields
   have : f = fun k => feeFieldsOf k.features := funext hf
   rw [this]
 
 /-- saturating left fold = saturated sum -/
-private theorem fold_sat (l : List Nat) (acc : Nat) (hacc : acc ≤ 2^64 - 1) :
+theorem fold_sat (l : List Nat) (acc : Nat) (hacc : acc ≤ 2^64 - 1) :
     List.foldl (fun a x => Fns.satAddN 64 a (x % 2^40)) acc l
       = min (acc + (l.map (· % 2^40)).sum) (2^64 - 1) := by
   induction l generalizing acc with
@@ -69,7 +69,7 @@ theorem body_fee_shift_eq (ks : List Fns.TxKernel) :
     funext a x; rw [fee_shift_eq]
   rw [this, List.foldl_map]
 
-private theorem foldl_max_le (l : List Nat) (acc b : Nat) (ha : acc ≤ b) (hl : ∀ x ∈ l, x ≤ b) :
+theorem foldl_max_le (l : List Nat) (acc b : Nat) (ha : acc ≤ b) (hl : ∀ x ∈ l, x ≤ b) :
     l.foldl max acc ≤ b := by
   induction l generalizing acc with
   | nil => simpa using ha
@@ -139,14 +139,14 @@ theorem packFee_shift {fee shift : Nat} (hf : fee < 2^40) (hs : shift < 16) :
     packFee fee shift / 2^40 % 16 = shift := by
   unfold packFee; omega
 
-private theorem feeFields_plain (fs : List (Nat × Nat)) :
+theorem feeFields_plain (fs : List (Nat × Nat)) :
     feeFields (fs.map fun p => (⟨.Plain (packFee p.1 p.2)⟩ : Fns.TxKernel)) = fs.map (fun p => packFee p.1 p.2) := by
   unfold feeFields
   induction fs with
   | nil => rfl
   | cons p ps ih => simp [feeFieldsOf] at ih ⊢; exact ih
 
-private theorem low_bits_plain (fs : List (Nat × Nat)) (hf : ∀ p ∈ fs, p.1 < 2^40) :
+theorem low_bits_plain (fs : List (Nat × Nat)) (hf : ∀ p ∈ fs, p.1 < 2^40) :
     (fs.map (fun p => packFee p.1 p.2)).map (· % 2^40) = fs.map (·.1) := by
   induction fs with
   | nil => rfl
